@@ -214,6 +214,7 @@ func walks(r *chk.Run) int64 {
 }
 
 func run(r *chk.Run) {
+	e2.RunTwoStreamsFirst(r)
 	var evals, distinct atomic.Int64
 	evals.Add(walks(r))
 	// ---- 8, 16, 24 bit: exhaustive, both signedness modes -----------------
@@ -417,6 +418,5 @@ func run(r *chk.Run) {
 	// signedness is looked up under the table's own name (names differing in case only)
 	e2.RunCaseTwins(r)
 	e2.RunScale(r, "wide-table", "kept-cells")
-	e2.RunNested(r)
 	r.SetExhaustive(true)
 }
